@@ -2167,16 +2167,21 @@ class HexBlock(Block):
                 return 3.0
             else:
                 symmetryLine = self.core.spatialGrid.overlapsWhichSymmetryLine(indices)
-                # detect if upper edge assemblies are included. Doing this is the only way to know
-                # definitively whether or not the edge assemblies are half-assems or full.
-                # seeing the first one is the easiest way to detect them.
-                # Check it last in the and statement so we don't waste time doing it.
-                upperEdgeLoc = self.core.spatialGrid[-1, 2, 0]
+                # detect if the counterpart of this assembly on the other symmetry line is included.
+                # Doing this is the only way to know definitively whether or not the edge assemblies
+                # are half-assems or full. Look at the counterpart of this very location: the first
+                # edge location may be empty while edge assemblies further out are present.
                 if symmetryLine in [
                     grids.BOUNDARY_0_DEGREES,
                     grids.BOUNDARY_120_DEGREES,
-                ] and bool(self.core.childrenByLocator.get(upperEdgeLoc)):
-                    return 2.0
+                ]:
+                    i, j = indices[:2]
+                    if symmetryLine == grids.BOUNDARY_0_DEGREES:
+                        otherEdgeLoc = self.core.spatialGrid[-i - j, i, 0]
+                    else:
+                        otherEdgeLoc = self.core.spatialGrid[j, -i - j, 0]
+                    if bool(self.core.childrenByLocator.get(otherEdgeLoc)):
+                        return 2.0
         return 1.0
 
     def autoCreateSpatialGrids(self, systemSpatialGrid=None):
